@@ -109,7 +109,16 @@ def extract(config, repo=None, quiet=True):
 
     def complete():
         return os.path.exists(marker) and all(os.path.exists(os.path.join(out, c + ".json")) for c in expected)
+
+    def touch():
+        # prune_cache() keeps what was used within the last hour: mark this tree's facts as in use (a long session that
+        # analysed many scratch trees once pruned the facts of the tree a concurrent check was reading)
+        try:
+            os.utime(os.path.dirname(out), None)
+        except OSError:
+            pass
     if complete():
+        touch()
         return out
     # VERIF_TARGET_DIR: a private cargo target directory (used by the parallel self-test workers; facts stay shared,
     # they are keyed by the hash of the analysed tree)
@@ -127,8 +136,11 @@ def extract(config, repo=None, quiet=True):
     fcntl.flock(lockf, fcntl.LOCK_EX)
     try:
         if complete():          # another process extracted the same tree while we waited
+            touch()
             return out
-        return _extract_locked(config, repo, out, tgt, pkgs, feats, expected, extra_flags, marker, quiet)
+        r_ = _extract_locked(config, repo, out, tgt, pkgs, feats, expected, extra_flags, marker, quiet)
+        touch()
+        return r_
     finally:
         fcntl.flock(lockf, fcntl.LOCK_UN)
         lockf.close()
